@@ -256,9 +256,7 @@ def run(tier):
         explore.run(spec, report, tier, 2, 100000, 200)
     else:
         explore.run(spec, report, tier, 3, 2000000, 9000)
-    for viol in list(report.violations.values()):
-        if viol.replay and viol.replay.get("kind") == "history" and not explore.confirm(spec, viol):
-            raise HarnessError(f"violation {viol.signature} did not reproduce from its replay data")
+    e1check.confirm_all(spec, report)
     part_b = run_part_b(report, tier)
     cov = report.coverage
     wit = cov.get("witnesses", {})
